@@ -69,6 +69,19 @@ CHECKS.update({
          "DESIGN.md §3 C20"),
 })
 
+CHECKS.update({
+ "C09": ("E1 vmesh (deterministic virtual mesh of real router/switch/state/peering objects)", "exploration",
+         "runtime monitor: real announcement flooding in a harness-scheduled virtual mesh; quiescent-state oracle on routing tables + real link registries + label-switched probes; per-send flooding-clause monitor on the frame log; budgeted exhaustive DFS over delivery orders for tiny meshes",
+         "Lines, rings, stars, trees, grids and seeded sparse graphs of 2..16 real routers with 1-/2-byte/mixed labels and router infos up to 1.5 KB announce with the real code; the network is drained FIFO, in seeded random orders and (2-3 routers) over all delivery orders up to a schedule budget; at quiescence every ordered pair must have an exact route whose forward labels lead to the destination over the real registries and through the real switches, and every announcement send is checked against the flooding clauses (not to origin / hop-list member, simple topology path, at most once).",
+         "Lossless links, honest routers; schedules beyond the DFS budget are sampled; evidence says how many tiny meshes were exhausted.",
+         "DESIGN.md §3 C09"),
+ "C10": ("E1 vmesh", "exploration",
+         "runtime monitor: per-crossing monitor (TTL strictly decreasing, never 0, crossing bound, byte-for-byte preservation outside TTL/flow/switch block) over real routed requests, pong request/reply and label-switched frames in converged meshes and over adversarial routing tables/label blocks",
+         "In meshes converged by the real announcement code every ordered pair exchanges a custom probe ping (registered handler fires at the destination only), a real pong request/reply and a label-switched frame built from the table's forward block; with routing tables filled with cyclic/inconsistent routes and frames carrying looping/dangling label blocks and TTL 1..255 every crossing is checked for TTL decrease, TTL>0, at most TTL-1 crossings and unchanged bytes.",
+         "Meshes up to 16 routers; adversarial states are seeded samples.",
+         "DESIGN.md §3 C10"),
+})
+
 NOT_YET = "check not implemented yet in this revision of /verif (work in progress; see DESIGN.md §8)"
 
 def main():
